@@ -17,6 +17,34 @@ SIM_NOTE = ("Trusted base: the simulated kernel / psutil.Popen fake "
             "EPERM, job-control stops. Search never proves absence.")
 
 TABLE = {
+ "C02": dict(
+  engine="E1-simworld", category="fault_enumeration", design_ref="DESIGN.md §4 C02",
+  technique="fault enumeration (a worker death injected at every kernel-call boundary of every stop/restart/rm/quit scenario of a grid) plus Hypothesis-generated histories, on the real daemon over the simulated kernel; oracle = kernel process table at the instant the reply is sent",
+  text=("For each scenario of the grid the stop sequence is run once to "
+        "count kernel-call boundaries and then once per (boundary, victim, "
+        "kind of death); random histories add non-start requests, checks and "
+        "deaths after completed stops. Survivors/zombies are read from the "
+        "kernel table when the waiting reply is written; 'stopped stays "
+        "stopped' is checked on the spawn log."),
+  note=SIM_NOTE),
+ "C04": dict(
+  engine="E1-simworld", category="exploration", design_ref="DESIGN.md §4 C04",
+  technique="model-based property testing: generated histories with hook outcomes, exec failures and boundary deaths; differential between the daemon's replies (list/numprocesses/stats/status) and the simulated kernel's process table at quiescent points, plus fault enumeration of the spawn path",
+  text=("At every quiescent point the replies of list, numprocesses, stats "
+        "and status are compared with the kernel table (every live child "
+        "reported exactly once, stopped => none, no transient status, no "
+        "dead pid or zombie after one check)."),
+  note=SIM_NOTE),
+ "C09": dict(
+  engine="E1-simworld", category="exploration", design_ref="DESIGN.md §4 C09",
+  technique="model-based property testing: generated histories; the frames captured on the PUB socket are parsed and the reconstructed process set / exit codes are compared with the simulated kernel's table and death log",
+  text=("Spawn/reap/kill/start/stop events captured from the PUB socket "
+        "fake are checked for uniqueness and ordering after every op and, at "
+        "the settled end, the reconstructed live set, the exit codes of "
+        "self-inflicted deaths (all statuses 0..255 and signals) and the "
+        "start/stop-vs-status agreement are compared with kernel ground "
+        "truth."),
+  note=SIM_NOTE),
  "C01": dict(
   engine="E1-simworld", category="exploration", design_ref="DESIGN.md §4 C01",
   technique="model-based property testing: Hypothesis-generated histories (requests, deaths, fault placements, worker behaviours) run on the real daemon over a simulated kernel on virtual time, compared with a reference model of numprocesses",
